@@ -172,9 +172,14 @@ fn run_any(c: &TabCase) -> Result<(bool, bool), (String, String)> {
 }
 
 fn name_strategy() -> impl Strategy<Value = Vec<String>> {
-    let alpha: Vec<char> = vec!['g', 'e', 't', '-', 'a', 'x', 'é', 'г', '佐'];
+    // pairs of characters that share their leading octet(s): é/ê (C3), г/д (D0), 佐/佗 (E4 BD), 𑿆/𑿌 (F0 91 BF) - a common
+    // continuation must end on a character boundary; h, l, p so that names meet the built-in `help`
+    let alpha: Vec<char> = vec!['g', 'e', 't', '-', 'a', 'x', 'é', 'ê', 'г', 'д', '佐', '佗', '𑿆', '𑿌', 'h', 'l', 'p'];
     let alpha2 = alpha.clone();
-    let stem = proptest::collection::vec(any::<u16>().prop_map(move |s| pick(&alpha, s)), 0..4).prop_map(|v| v.into_iter().collect::<String>());
+    let stem = prop_oneof![
+        4 => proptest::collection::vec(any::<u16>().prop_map(move |s| pick(&alpha, s)), 0..4).prop_map(|v| v.into_iter().collect::<String>()),
+        1 => prop_oneof![Just("h"), Just("he"), Just("hel"), Just("help"), Just("г佐"), Just("ge𑿆")].prop_map(|s| s.to_string()),
+    ];
     let tail = proptest::collection::vec(any::<u16>().prop_map(move |s| pick(&alpha2, s)), 0..5).prop_map(|v| v.into_iter().collect::<String>());
     (stem, proptest::collection::vec((any::<bool>(), tail), 1..=8), any::<u64>()).prop_map(|(stem, tails, shuffle)| {
         let mut names: Vec<String> = Vec::new();
@@ -242,7 +247,7 @@ fn case_strategy() -> impl Strategy<Value = TabCase> {
 
 fn fixed_case_strategy() -> impl Strategy<Value = TabCase> {
     let words = vec![
-        "", "g", "ge", "get", "get-", "get-l", "get-led", "get-a", "e", "ex", "exit", "s", "se", "set", "n", "net", "h", "he", "help", "э", "эх", "эхо", "go", "go-", "hel", "hell", "hello", "sec", "secret-cmd", "exe", "x", "гг",
+        "", "g", "ge", "get", "get-", "get-l", "get-led", "get-a", "e", "ex", "exit", "s", "se", "set", "n", "net", "h", "he", "help", "э", "эх", "эхо", "go", "go-", "hel", "hell", "hello", "sec", "secret-cmd", "exe", "x", "гг", "с", "ст", "сто", "стоп", "ста", "старт",
     ];
     (
         prop_oneof![Just("enum"), Just("group")],
